@@ -25,15 +25,29 @@ def split_components(p):
 
 
 def must_refuse(step):
-    """With --output-directory, absolute sources or sources containing '..' are refused."""
+    """With --output-directory, absolute sources and sources that escape their parent ('..' taking the path above
+    where it started) must be refused - that is what the property states."""
     if step.get("O") is None:
         return False
     for s in step["sources"]:
         if s.startswith("/") or s.startswith(BOXTOKEN):
             return True
-        if ".." in split_components(s):
-            return True
+        depth = 0
+        for c in split_components(s):
+            if c == ".":
+                continue
+            depth += -1 if c == ".." else 1
+            if depth < 0:
+                return True
     return False
+
+
+def may_refuse(step):
+    """A source containing '..' that stays inside (sub/../X.qml) is refused by qmluic's stricter filter; the property
+    neither demands nor forbids that, so both a clean refusal and a correctly placed translation are accepted."""
+    if step.get("O") is None or must_refuse(step):
+        return False
+    return any(".." in split_components(s) for s in step["sources"])
 
 
 def predicted_outputs(step, box, cwd):
@@ -250,6 +264,9 @@ def eval_clean_run(sb, step, before, after, res, pred, label=""):
     """Oracles for a fault-free GEN (file set, untouched, no temp left, refusal)."""
     out = []
     relpred = {sb.rel(p): v for p, v in pred.items()}
+    if may_refuse(step) and res.exit_status not in (0, None) and not [c for c in res.calls if c.is_mutation()] \
+            and not diff_paths(before, after):
+        return out      # refused cleanly
     if must_refuse(step):
         if res.exit_status in (0, None):
             out.append(V("refusal", "refuse:accepted-escape",
